@@ -565,6 +565,7 @@ impl Prop for C16 {
          (slice, Vec with/without spare capacity, empty Vec with capacity 0, Box, both Cow arms, iterator, From<&SharedBytes>, \
          the four serde visitor methods, JSON), clone, drop, drop on another thread, compare/order/hash, into_bytes, to_string, \
          cross-thread clone/drop storms, racing final drops (two threads drop the last two handles of 100..1500 buffers at the same instant), iterators with wrong size hints; byte inputs include empty, long, valid multi-byte, truncated and invalid UTF-8. \
+         Every case ends with two Vec-backed buffers built while the allocator serves small blocks from a packed arena of 32-byte slots (no in-band headers, last freed slot first), so that the header from_vec allocates lies directly in front of the Vec's data. \
          Oracle: Vec<u8>/String model per handle + checking allocator (layout on free, double free, poison, live blocks). \
          non-trivial = a handle dropped on another thread, or the zero-capacity Vec path, or an invalid UTF-8 input; \
          distinct = different canonical JSON"
@@ -623,6 +624,21 @@ impl Prop for C16 {
                 break;
             }
         }
+        if !out.failed() && calloc::installed() {
+            let content: Vec<u8> = c
+                .ops
+                .iter()
+                .find_map(|op| match op {
+                    Op::NewBytes(_, b) if !b.is_empty() => Some(b.clone()),
+                    _ => None,
+                })
+                .unwrap_or_else(|| b"neighbours".to_vec());
+            match packed_neighbours(&content) {
+                Ok(true) => out.label("header-directly-before-data"),
+                Ok(false) => {}
+                Err((sig, what)) => out.fail(sig, what),
+            }
+        }
         if flags.cross_thread {
             out.label("cross-thread-drop");
         }
@@ -643,8 +659,46 @@ impl Prop for C16 {
     }
 
     fn required_labels(&self) -> Vec<&'static str> {
-        vec!["cross-thread-drop", "zero-capacity-vec", "invalid-utf8"]
+        vec!["cross-thread-drop", "zero-capacity-vec", "invalid-utf8", "header-directly-before-data"]
     }
+}
+
+/// With an allocator that packs equal-sized blocks (size classes, slabs), the header that `from_vec` allocates can
+/// land directly in front of the Vec's data. The buffer is Vec-backed all the same: same content, both blocks
+/// released with their own layouts. Returns whether the two blocks really were neighbours.
+fn packed_neighbours(content: &[u8]) -> Result<bool, (String, String)> {
+    let content = &content[..content.len().min(32)];
+    let (neighbours, ok, before, after) = calloc::packed(|| {
+        let before = calloc::packed_live();
+        let mut neighbours = false;
+        let mut ok = true;
+        for cap in [32usize, content.len().max(1)] {
+            let a: Vec<u8> = Vec::with_capacity(32);
+            let mut v: Vec<u8> = Vec::with_capacity(cap);
+            let n = content.len().min(cap);
+            v.extend_from_slice(&content[..n]);
+            let a_at = a.as_ptr() as usize;
+            // the slot of `a` is the next one to be handed out
+            drop(a);
+            let sb = SharedBytes::from_vec(v);
+            neighbours |= sb.as_ptr() as usize == a_at + 32;
+            let c2 = sb.clone();
+            ok &= *sb == content[..n] && *c2 == content[..n];
+            drop(sb);
+            drop(c2);
+        }
+        (neighbours, ok, before, calloc::packed_live())
+    });
+    if !ok {
+        return Err(("content-mismatch".into(), "a Vec-backed SharedBytes whose header was allocated directly in front of the Vec's data does not read the Vec's bytes".into()));
+    }
+    if calloc::error_count() != 0 {
+        return Err(("allocator".into(), format!("Vec-backed SharedBytes whose header was allocated directly in front of the Vec's data (packed allocator): {}", calloc::describe_errors())));
+    }
+    if after != before {
+        return Err(("leak".into(), format!("Vec-backed SharedBytes whose header was allocated directly in front of the Vec's data (packed allocator): {} block(s) still alive after every clone was dropped", after - before)));
+    }
+    Ok(neighbours)
 }
 
 /// Fuzz decoder: libFuzzer bytes -> a case (the byte payloads of the ops are taken verbatim from the input,
